@@ -48,8 +48,14 @@ func (c *c05) Cases(tier string, seed int64) []core.Case {
 		cs = append(cs, core.MkCase(fmt.Sprintf("many-slices-%d", i), c05Params{r.Int63()&^(0xffff<<8) | int64(i)<<8, "many-slices"}))
 	}
 	cs = append(cs, core.MkCase("near-16k", c05Params{r.Int63(), "near-16k"}))
+	for i := 0; i < map[string]int{"quick": 5, "thorough": 80}[tier]; i++ {
+		for _, h := range encoderHistories {
+			cs = append(cs, core.MkCase(fmt.Sprintf("encoder-%s-%d", h, i), c05Params{r.Int63(), "encoder:" + h}))
+		}
+	}
 	for i := 0; i < map[string]int{"quick": 6, "thorough": 60}[tier]; i++ {
 		cs = append(cs, core.MkCase(fmt.Sprintf("obstacle-%d", i), c05Params{r.Int63(), "obstacle"}))
+		cs = append(cs, core.MkCase(fmt.Sprintf("unreadable-input-%d", i), c05Params{r.Int63(), "unreadable-input"}))
 	}
 	for i := 0; i < map[string]int{"quick": 3, "thorough": 30}[tier]; i++ {
 		cs = append(cs, core.MkCase(fmt.Sprintf("many-slices-and-blocks-%d", i), c05Params{r.Int63(), "many-both"}))
@@ -106,6 +112,13 @@ func (c *c05) Run(cs core.Case) core.Result {
 			n := total*slice/nf - rng.Intn(slice)
 			set.Files = append(set.Files, scen.File{Name: scen.GenName(rng, i, true, true), Data: scen.GenData(rng, "random", n, slice)})
 		}
+	case "encoder:retry-after-missing-input", "encoder:reload-after-files-changed", "encoder:reload-unchanged":
+		set = genP2Set(rng, 6, []string{"random", "random", "dupslices"}, false)
+		for len(set.Files) < 2 {
+			set.Files = append(set.Files, scen.File{Name: fmt.Sprintf("second-%d.bin", len(set.Files)), Data: scen.GenData(rng, "random", 1+rng.Intn(3*set.SliceSize), set.SliceSize)})
+		}
+	case "unreadable-input":
+		set = genP2Set(rng, 4, []string{"random"}, false)
 	case "obstacle":
 		set = genP2Set(rng, 4, []string{"random"}, false)
 		set.Blocks = 2 + rng.Intn(9)
@@ -128,7 +141,7 @@ func (c *c05) Run(cs core.Case) core.Result {
 	// size or more blocks leaves behind).
 	p2PreCreate = nil
 	var preSnap map[string]string
-	if p.Seed%4 == 1 && p.Kind != "limit" && p.Kind != "over-limit" && p.Kind != "obstacle" {
+	if p.Seed%4 == 1 && p.Kind != "limit" && p.Kind != "over-limit" && p.Kind != "obstacle" && !strings.HasPrefix(p.Kind, "encoder:") {
 		p2PreCreate = func(dir, idx string, paths []string) {
 			older := set.SliceSize / 2
 			if older < 4 || older%4 != 0 {
@@ -145,7 +158,7 @@ func (c *c05) Run(cs core.Case) core.Result {
 	// spellings of the same path: the set is still the set of distinct files.
 	p2CreatePaths = nil
 	repeated := false
-	if p.Seed%7 == 3 && p.Kind != "obstacle" {
+	if p.Seed%7 == 3 && p.Kind != "obstacle" && p.Kind != "unreadable-input" && !strings.HasPrefix(p.Kind, "encoder:") {
 		p2CreatePaths = func(dir string, paths []string) []string {
 			out := append([]string(nil), paths...)
 			for k := 0; k < 1+rng.Intn(2); k++ {
@@ -158,6 +171,27 @@ func (c *c05) Run(cs core.Case) core.Result {
 			r.Count("sets_with_repeated_inputs", 1)
 			repeated = true
 			return out
+		}
+	}
+	// Kind unreadable-input: one of the listed inputs cannot be read (it is a
+	// directory, it does not exist, or it is a dangling link); Create has to fail.
+	unreadable := ""
+	if p.Kind == "unreadable-input" {
+		p2CreatePaths = func(dir string, paths []string) []string {
+			out := append([]string(nil), paths...)
+			bad := filepath.Join(dir, "unreadable-input")
+			switch rng.Intn(3) {
+			case 0:
+				os.MkdirAll(filepath.Join(bad, "inner"), 0755)
+				unreadable = "a directory"
+			case 1:
+				unreadable = "a path that does not exist"
+			default:
+				os.Symlink(filepath.Join(dir, "no", "such", "target"), bad)
+				unreadable = "a dangling symbolic link"
+			}
+			at := rng.Intn(len(out) + 1)
+			return append(out[:at], append([]string{bad}, out[at:]...)...)
 		}
 	}
 	// An obstacle: a directory sits where one of the recovery files has to go.
@@ -194,7 +228,20 @@ func (c *c05) Run(cs core.Case) core.Result {
 			}
 		}
 	}
-	p2SymlinkInputs = p.Seed%5 == 2
+	// Kind encoder-history: the set is written through one par2.Encoder object
+	// that loads the inputs more than once (after a failure, after the files
+	// changed, or for no reason).
+	histRefused := false
+	if strings.HasPrefix(p.Kind, "encoder:") {
+		hist := strings.TrimPrefix(p.Kind, "encoder:")
+		p2CreateHook = func(idx string, paths []string, slice, blocks, g int) (error, *core.PanicInfo) {
+			err, ref, pi := p2CreateVia(hist, rng, idx, paths, slice, blocks, g)
+			histRefused = ref
+			return err, pi
+		}
+		r.Count("encoder_histories|"+hist, 1)
+	}
+	p2SymlinkInputs = p.Seed%5 == 2 && !strings.HasPrefix(p.Kind, "encoder:")
 	outBase := "out"
 	if p.Seed%3 == 0 {
 		outBase = []string{"out 100%", "o%sut", "%d"}[(p.Seed/3)%3]
@@ -202,7 +249,16 @@ func (c *c05) Run(cs core.Case) core.Result {
 	env, err := newP2Env(set, outBase, g)
 	p2PreCreate = nil
 	p2CreatePaths = nil
+	p2CreateHook = nil
 	p2SymlinkInputs = false
+	if histRefused && err != nil {
+		// the Encoder declined to load again: acceptable, nothing was written
+		r.Count("encoder_history_refused", 1)
+		if env != nil {
+			env.close()
+		}
+		return r.Done()
+	}
 	if env != nil {
 		defer env.close()
 	}
@@ -213,6 +269,16 @@ func (c *c05) Run(cs core.Case) core.Result {
 		r.Count("create_refused_repeated_input", 1)
 		r.Key("repeated-input-refused|%s", p.Kind)
 		r.Sample(map[string]interface{}{"kind": p.Kind, "repeated_inputs": true, "outcome": fmt.Sprint(err)})
+		return r.Done()
+	}
+	if p.Kind == "unreadable-input" {
+		r.Key("unreadable-input|%s|%v", unreadable, err != nil)
+		r.Sample(map[string]interface{}{"kind": p.Kind, "unreadable": unreadable, "outcome": fmt.Sprint(err)})
+		if err == nil || !strings.HasPrefix(err.Error(), "Create: ") {
+			r.Violate("create-ok-despite-unreadable-input", "one listed input is %s; Create: %v (a set written now silently leaves that input out)", unreadable, err)
+		} else {
+			r.Count("create_refused_unreadable_input", 1)
+		}
 		return r.Done()
 	}
 	if p.Kind == "obstacle" {
